@@ -319,3 +319,120 @@ def output_sets(ordered=False):
     if ordered:
         base += [[1, 0], [2, 0], [2, 1], [2, 1, 0], [1, 2, 0]]
     return base
+
+
+class OptProg(RandProg):
+    """graphs that over-represent what the optimiser passes rewrite"""
+
+    def __init__(self, rng, sts, max_elems=8):
+        RandProg.__init__(self, rng, sts[0], max_elems)
+        self.sts = sts
+        self.has_random = False
+        self.has_send = False
+
+    def pick_st(self):
+        self.st = self.rng.choice(self.sts)
+
+    def op_a2b_b2a(self):
+        xs = self.arrays()
+        if not xs:
+            return None
+        a = self.rng.choice(xs)
+        st = a[1].st
+        if st != "bit":
+            w = st_bits(st)
+            if nelem(a[1].shape) * w > 64:
+                return None
+            b = self.g.a2b(a[0])
+            bt = arr_t(a[1].shape + (w,), "bit")
+            self.add_val(b, bt)
+            # back, possibly to another type of the same width
+            st2 = self.rng.choice([s for s in ["u8", "i8", "u16", "i16", "u32", "i32", "u64", "i64"] if st_bits(s) == w] or [st])
+            if self.rng.random() < 0.7:
+                st2 = st
+            nid = self.g.b2a(b, st2)
+            self.ops_used.append("a2b_b2a")
+            return self.add_val(nid, arr_t(a[1].shape, st2))
+        # bit array whose last dim is a scalar width: B2A then A2B
+        if len(a[1].shape) >= 1 and a[1].shape[-1] in (8, 16):
+            st2 = {8: "u8", 16: "i16"}[a[1].shape[-1]]
+            x = self.g.b2a(a[0], st2)
+            self.add_val(x, arr_t(a[1].shape[:-1], st2))
+            nid = self.g.a2b(x)
+            self.ops_used.append("b2a_a2b")
+            return self.add_val(nid, a[1])
+        return None
+
+    def op_random(self):
+        self.pick_st()
+        shape = self.rng.choice([s for s in SHAPES if nelem(s) <= 4])
+        t = arr_t(shape, self.st)
+        self.has_random = True
+        if self.rng.random() < 0.5:
+            self.ops_used.append("random")
+            return self.add_val(self.g.random(t), t)
+        key = self.g.random(T.array((128,), "bit"))
+        iv = self.rng.choice([0, 1, 1, 2])
+        self.ops_used.append("prf")
+        r = self.add_val(self.g.prf(key, iv, t), t)
+        if self.rng.random() < 0.5:
+            # a second PRF under the same key, same or different iv
+            self.add_val(self.g.prf(key, self.rng.choice([iv, iv + 1]), t), t)
+        return r
+
+    def op_nop_send(self):
+        xs = self.arrays()
+        if not xs:
+            return None
+        a = self.rng.choice(xs)
+        s = self.rng.randrange(3)
+        r = self.rng.choice([p for p in range(3) if p != s])
+        ann = [{"Send": [s, r]}] if self.rng.random() < 0.8 else None
+        if ann:
+            self.has_send = True
+        self.ops_used.append("nop_send" if ann else "nop")
+        first = self.add_val(self.g.nop(a[0], ann=ann), a[1])
+        if self.rng.random() < 0.5:
+            # a second NOP of the same node with a different (or no) marker; combine both so that
+            # they stay live
+            s2 = self.rng.randrange(3)
+            r2 = self.rng.choice([p for p in range(3) if p != s2])
+            ann2 = [{"Send": [s2, r2]}] if self.rng.random() < 0.6 else None
+            if ann2 != ann:
+                second = self.add_val(self.g.nop(a[0], ann=ann2), a[1])
+                if ann2:
+                    self.has_send = True
+                self.ops_used.append("nop_pair")
+                return self.add_val(self.g.add(first[0], second[0]), a[1])
+        return first
+
+    def op_dup(self):
+        """re-emit an existing non-input node verbatim (same op, same deps)"""
+        cands = [i for i, n in enumerate(self.g.nodes) if not (isinstance(n["op"], dict) and "Input" in n["op"])]
+        if not cands:
+            return None
+        i = self.rng.choice(cands)
+        n = self.g.nodes[i]
+        t = None
+        for nid, tt in self.vals:
+            if nid == i:
+                t = tt
+        if t is None:
+            return None
+        nid = self.g.node(n["op"], n["deps"], ann=n.get("ann"))
+        self.ops_used.append("dup")
+        return self.add_val(nid, t)
+
+    def grow_opt(self, n_ops):
+        menu = [(self.op_elementwise, 5), (self.op_contract, 1), (self.op_reduce, 1), (self.op_structural, 3),
+                (self.op_container, 5), (self.op_const, 4), (self.op_a2b_b2a, 2), (self.op_random, 2),
+                (self.op_nop_send, 2), (self.op_dup, 3)]
+        made = 0
+        tries = 0
+        while made < n_ops and tries < n_ops * 12:
+            tries += 1
+            self.pick_st()
+            f = self.rng.choices([m[0] for m in menu], weights=[m[1] for m in menu])[0]
+            if f() is not None:
+                made += 1
+        return made
